@@ -98,6 +98,39 @@ def width_of_writer(term):
     return None
 
 
+
+VALUE_OPS = ("min", "max", "clamp", "pow", "next_power_of_two", "abs", "round", "floor", "ceil", "trunc", "rem_euclid", "div_euclid",
+             "swap_bytes", "to_be", "from_be", "reverse_bits", "not", "neg", "isqrt", "midpoint", "div_ceil", "next_multiple_of")
+
+
+def value_manipulations(ctx, fn, tainted):
+    """arithmetic / clamping / rounding applied in fn to a value for which `tainted(term)` holds: list of (block, what)"""
+    og = ctx.og(fn)
+    out = []
+    for b, blk in enumerate(fn.blocks):
+        if blk["cleanup"]:
+            continue
+        for st in blk["s"]:
+            rv = st["rv"]
+            if rv["k"] in ("bin", "un"):
+                op = rv.get("op") or ""
+                if op in ("Eq", "Ne", "Lt", "Le", "Gt", "Ge", "Offset", "PtrMetadata", "Not") and rv["k"] == "bin":
+                    continue
+                if rv["k"] == "un" and op in ("PtrMetadata",):
+                    continue
+                ops = [rv[k] for k in ("a", "b", "l", "r") if k in rv and isinstance(rv[k], dict)]
+                if any(tainted(og.of_operand(o)) for o in ops):
+                    out.append((b, "%s" % op))
+        t = blk["t"]
+        if t["k"] == "call":
+            n = A.cname(t)
+            leaf = n.rsplit("::", 1)[-1].split("<")[0]
+            if leaf in VALUE_OPS or leaf.startswith(("saturating_", "wrapping_", "checked_", "overflowing_", "rotate_")):
+                if any(tainted(og.of_operand(a)) for a in t["args"]):
+                    out.append((b, n))
+    return out
+
+
 def run(ctx):
     F = ctx.F
     enc = ctx.fn(ENCODE, "R-C16.1")
@@ -197,6 +230,25 @@ def run(ctx):
                 ok = bool(field_keys.get(n))
                 ctx.ob("R-C16.1", frm, "field-%s-recovered-from-storage" % n, ok, "CreateOptions.%s is initialised from stored key(s) %s" % (n, sorted(field_keys.get(n, []))) if ok else "CreateOptions.%s is not recovered from storage (reopen would use a constant)" % n)
 
+        # values are stored and recovered as they are: no arithmetic, clamping or rounding between the stored bytes and the field
+        def from_storage(term):
+            return any(x.k == "call" and (x.a[0] == "meta_keyspace::MetaKeyspace::get_kv_for_config" or (C.PRIM.search(x.a[0]) and "read" in x.a[0])) for x in A.walk(term))
+        bad = []
+        for fn_ in bodies:
+            bad += [(fn_, b_, w_) for b_, w_ in value_manipulations(ctx, fn_, from_storage)]
+        ctx.ob("R-C16.1", frm, "recovered-values-untransformed", not bad,
+               "from_kvs applies no arithmetic / clamping / rounding to a value read from storage" if not bad
+               else "a stored option value is transformed while it is recovered (%s at %s): the option in force after a reopen differs from the one chosen at creation" % (bad[0][2], bad[0][0].loc(bad[0][1])))
+        if enc:
+            def from_self(term):
+                return any(x.k == "param" and x.a[0] == 1 for x in A.walk(term))
+            badw = []
+            for fn_ in [enc] + F.closures_of(ENCODE):
+                badw += [(fn_, b_, w_) for b_, w_ in value_manipulations(ctx, fn_, from_self)]
+            ctx.ob("R-C16.1", enc, "stored-values-untransformed", not badw,
+                   "encode_kvs applies no arithmetic / clamping / rounding to an option before storing it" if not badw
+                   else "an option value is transformed before it is stored (%s at %s): what is recovered is not what was chosen" % (badw[0][2], badw[0][0].loc(badw[0][1])))
+
         # ---- R-C16.2 scalar widths
         for key, sites in sorted(read.items()):
             fn, b = sites[0]
@@ -257,6 +309,42 @@ def run(ctx):
         rs = {C.shape(s) for s in C.sequences(F, ds[0], [0], "r")}
         ok = ws == rs and any("<back>" in s for s in ws)
         ctx.ob("R-C16.3", es[0], "codec-%s-writer-equals-reader" % mod, ok, "%s policy: %s" % (mod, sorted(ws)) if ok else "%s policy: writer paths %s vs reader paths %s" % (mod, sorted(ws), sorted(rs)))
+        # values travel untransformed: what the reader stores is what it read (enum wrappers and the `== 1` bool decoding
+        # aside), what the writer writes is the stored element / the element count
+        def transformed(term, side):
+            bad = []
+            for x in A.walk(term):
+                if x.k == "call":
+                    n = x.a[0]
+                    leaf = n.rsplit("::", 1)[-1].split("<")[0]
+                    if C.PRIM.search(n) or n.endswith("::branch") or n.endswith("Decode>::decode_from") or n.endswith("::decode_from") or A.is_transparent(n):
+                        continue
+                    if side == "w" and (leaf in ("next", "len", "iter", "deref", "as_ref") or n.endswith("Encode>::encode_into")):
+                        continue
+                    bad.append(n)
+                elif x.k == "bin":
+                    op = x.a[0]
+                    if side == "r" and op in ("Eq", "Ne") and (x.a[1].k == "const" or x.a[2].k == "const"):
+                        continue
+                    bad.append(op)
+                elif x.k in ("un", "cast") and side == "r":
+                    bad.append(x.k)
+            return bad
+        for side, fn0 in (("r", ds[0]), ("w", es[0])):
+            og0 = ctx.og(fn0)
+            bad = []
+            nvals = 0
+            for b, t in fn0.calls():
+                n = A.cname(t)
+                if side == "r" and n.endswith("Vec::<T, A>::push"):
+                    nvals += 1
+                    bad += transformed(og0.of_operand(t["args"][1]), side)
+                if side == "w" and (C.PRIM.search(n) or C.PRIM.search(t.get("callee") or "")) and len(t["args"]) > 1:
+                    nvals += 1
+                    bad += transformed(og0.of_operand(t["args"][1]), side)
+            ctx.ob("R-C16.3", fn0, "codec-%s-%s-values-untransformed" % (mod, "decoded" if side == "r" else "encoded"), nvals > 0 and not bad,
+                   "%s policy: every %s value is the %s" % (mod, "decoded" if side == "r" else "written", "bytes just read (no arithmetic, clamping or mapping)" if side == "r" else "stored element / element count") if (nvals and not bad)
+                   else "%s policy: a value is transformed on the way %s (%s): the option in force after a reopen differs from the one chosen at creation" % (mod, "in" if side == "r" else "out", ", ".join(sorted(set(bad)))[:120] or "no values found"))
         if mod == "filter":
             # tag tables
             def writer_tags(fn, variants):
